@@ -41,6 +41,10 @@ pub struct GenConfig {
     pub max_init_pages: u32,
     /// Probability (x/255) of continuing with dead code after an unconditional branch.
     pub dead_code:     u8,
+    /// Probability (x/255) that a generated call targets a host import (when there are imports).
+    pub host_call_bias: u8,
+    /// Extra probability (x/255) per generated statement of emitting a call.
+    pub extra_call_weight: u8,
 }
 
 impl Default for GenConfig {
@@ -57,6 +61,8 @@ impl Default for GenConfig {
             allow_table: true,
             max_init_pages: 2,
             dead_code: 160,
+            host_call_bias: 0,
+            extra_call_weight: 0,
         }
     }
 }
@@ -518,6 +524,8 @@ impl<'a, 'u, 'd> BodyGen<'a, 'u, 'd> {
         let indirect = self.m.table_len > 0 && self.m.cfg.allow_table && g::ratio(self.u, 1, 4);
         let (callee, ity) = if indirect {
             (0, Some(g::idx(self.u, self.m.types.len()) as u32))
+        } else if self.m.nimports > 0 && g::byte(self.u) < self.m.cfg.host_call_bias {
+            (g::idx(self.u, self.m.nimports) as u32, None)
         } else {
             (g::idx(self.u, nf as usize) as u32, None)
         };
@@ -699,6 +707,10 @@ impl<'a, 'u, 'd> BodyGen<'a, 'u, 'd> {
     }
 
     fn gen_one(&mut self) {
+        if self.m.cfg.extra_call_weight > 0 && g::byte(self.u) < self.m.cfg.extra_call_weight {
+            self.gen_call();
+            return;
+        }
         let r = g::byte(self.u);
         match r % 32 {
             0..=4 => {
